@@ -300,8 +300,11 @@ def minimise(mod, ctx, case, bucket, max_evals=120):
     SHRINK_LISTS (default: rows, ops), then drop parameter leaves. """
     evals = [0]
 
+    t_start = time.time()
+
     def ok(cand):
-        if evals[0] >= max_evals:
+        # bounded by count and by a 90 s allowance (only limits how far a failure is minimised)
+        if evals[0] >= max_evals or time.time() - t_start > 90:
             return False
         evals[0] += 1
         return _still_fails(mod, ctx, cand, bucket)
